@@ -572,6 +572,59 @@ def rule_w7(repo):
     from ..persist import scoped_state_rule
     return scoped_state_rule(repo, 'C07.W7')
 
+def rule_w8(repo):
+    """The printer decides whether an operand needs brackets from the rating get_priority_pair gives it.  A numeral is
+    rated as an atom - but only a non-negative one *is* an atom in print: -k is written with the prefix operator, and as
+    the argument of a function `f (-2)` without brackets is `f -2`, which the grammar reads as the binary minus.  So
+    wherever `is_number()` leads to the atom rating, the same conjunction carries a test that the number is not negative
+    (dest_number() >= 0, or the like)."""
+    from ..astutil import comparison_holding
+    res = RuleResult('C07.W8', 'a numeral is rated as an atom only when it is not negative', floor=1)
+    f = repo.func(PPRINT, 'get_ast_term.<locals>.get_priority_pair')
+
+    def dnf(e, pol=True):
+        if isinstance(e, ast.UnaryOp) and isinstance(e.op, ast.Not):
+            return dnf(e.operand, not pol)
+        if isinstance(e, ast.BoolOp):
+            conj = isinstance(e.op, ast.And) == pol
+            parts = [dnf(v, pol) for v in e.values]
+            if not conj:
+                return [c for p_ in parts for c in p_]
+            out = [[]]
+            for p_ in parts:
+                out = [a + b for a in out for b in p_]
+                need(len(out) <= 256, 'get_priority_pair: condition too large for a normal form')
+            return out
+        return [[(e, pol)]]
+
+    def is_atom_return(stmts):
+        return any(isinstance(r, ast.Return) and isinstance(r.value, ast.Tuple) and len(r.value.elts) == 2 and is_name(r.value.elts[1], 'ATOM')
+                   for st in stmts for r in ast.walk(st))
+    n_found = 0
+    for node in ast.walk(f.node):
+        if not (isinstance(node, ast.If) and is_atom_return(node.body[:1])):
+            continue
+        for conj in dnf(node.test):
+            nums = [a for a, pol in conj if pol and isinstance(a, ast.Call) and call_attr(a) == 'is_number']
+            if not nums:
+                continue
+            n_found += 1
+            subj = src(nums[0].func.value)
+            nonneg = False
+            for a, pol in conj:
+                for op, l, r in comparison_holding(a, pol):
+                    if isinstance(l, ast.Call) and call_attr(l) == 'dest_number' and src(l.func.value) == subj and isinstance(r, ast.Constant) and \
+                            ((op in (ast.GtE, ast.Gt) and r.value == 0) or (op is ast.Gt and r.value == -1)):
+                        nonneg = True
+                if not pol and isinstance(a, ast.Call) and call_attr(a) in ('is_uminus',) and src(a.func.value) == subj:
+                    nonneg = True
+            res.add('%s :: get_ast_term.get_priority_pair :: numeral-atom#%d' % (PPRINT, n_found), nonneg,
+                    'rated an atom only with a test that the number is not negative' if nonneg else
+                    'line %d rates every numeral `%s` as an atom, negative ones included; they are printed with the prefix minus, so f (-2) '
+                    'is printed `f -2` and read back as f - 2' % (node.lineno, subj), '%s:%d' % (PPRINT, node.lineno))
+    need(n_found, 'get_priority_pair: no atom rating behind is_number() found')
+    return res
+
 
 def rules(repo):
-    return [rule_w1(repo), rule_w2(repo), rule_w3(repo), rule_w4(repo), rule_w5(repo), rule_w6(repo), rule_w7(repo)]
+    return [rule_w1(repo), rule_w2(repo), rule_w3(repo), rule_w4(repo), rule_w5(repo), rule_w6(repo), rule_w7(repo), rule_w8(repo)]
